@@ -110,9 +110,9 @@ pub fn alphabet() -> TreeAlphabet {
     let s = |v: &[&str]| v.iter().map(|x| x.to_string()).collect::<Vec<_>>();
     TreeAlphabet {
         consts: vec![true, false],
-        props: s(&["a", "p_1", "EXa", "3x"]),
+        props: s(&["a", "p_1", "EXa", "3x", "EF1", "AU_2"]),
         vars: s(&["x", "xx"]),
-        wilds: s(&["p", "EXa"]),
+        wilds: s(&["p", "AG0"]),
         doms: s(&["d", "3x"]),
         un: ALL_UN.to_vec(),
         bi: ALL_BI.to_vec(),
